@@ -3,4 +3,5 @@
 ROOT="$(cd "$(dirname "${BASH_SOURCE[0]}")/../.." && pwd)"
 export VERIF_ROOT="$ROOT"
 export CARGO_NET_OFFLINE=true
+export CARGO_TARGET_DIR="$ROOT/build/target-loom"
 exec python3 "$ROOT/harness/svloom/drive.py" "$@"
